@@ -807,6 +807,25 @@ func runProp(t *testing.T, d propDef) {
 					return
 				}
 
+				// as in the random part: a watchdog expiry counts only when it
+				// reproduces in a fresh child
+				if strings.HasPrefix(f.Clause, "hang") && !d.noChild && d.run != nil {
+					fresh := h.FreshChild()
+					f2 := d.run(h, fresh, c)
+					fresh.Quit()
+
+					if f2 == nil || !strings.HasPrefix(f2.Clause, "hang") {
+						h.mu.Lock()
+						h.Discarded++
+						h.Classes["unreproduced-watchdog-expiry"]++
+						h.mu.Unlock()
+
+						if f = f2; f == nil {
+							return
+						}
+					}
+				}
+
 				if f.Clause == "discard" {
 					h.Discarded++
 					return
